@@ -380,8 +380,16 @@ func groupSettleOracle(r *R, regs []*groupReg, strict bool, final bool) (decided
 		if !rg.registered {
 			continue
 		}
-		if rg.kind == 0 && rg.running > 0 && !final {
-			return false // its one run is under way: look again when it is over
+		if rg.kind == 0 && rg.running > 0 {
+			if !final {
+				return false // its one run is under way: look again when it is over
+			}
+			// At the last look before the stop its one run is still under way (a function registered
+			// from inside another run, scheduled late): it did start once; that it is over by the
+			// time StopAndWait returns is the barrier oracle's business.
+			if len(rg.starts) == 1 {
+				continue
+			}
 		}
 		if rg.kind == 0 && (len(rg.starts) != 1 || len(rg.ends) != 1) {
 			r.Violate("C17", "do-not-run-once", "Do's function ran %d times (completed %d) while the group was running", len(rg.starts), len(rg.ends))
